@@ -46,13 +46,13 @@ func cloneLines(ls []Line) []Line {
 
 // form of a key/value line
 const (
-	fEq      = iota // k=v
-	fEqSp           // k = v
-	fColon          // k:v  or k : v
-	fBlank          // k v
-	fTabs           // tabs / form feeds around the separator, leading blanks
-	fUniEsc         // non-ASCII as \uXXXX, '=' ':' '#' '!' in the value escaped
-	fCont           // value continued on a second physical line
+	fEq     = iota // k=v
+	fEqSp          // k = v
+	fColon         // k:v  or k : v
+	fBlank         // k v
+	fTabs          // tabs / form feeds around the separator, leading blanks
+	fUniEsc        // non-ASCII as \uXXXX, '=' ':' '#' '!' in the value escaped
+	fCont          // value continued on a second physical line
 	nForms
 )
 
